@@ -354,11 +354,11 @@ def r194(db, ctx, F):
             fnew = db.fn(f'{base}::new')
             e = norm(common.return_expr_single_path_allow(fnew))
             ok = m(('agg', '_', (('call~', ctor.rsplit('::', 1)[-1], (('fld', ('p', 1), F['data']),)),)), e) is not None
-            (ctx.ok if ok else ctx.fail)('R19.4', fnew, f'{it}::new wraps data.{ctor.rsplit("::", 1)[-1]}()', *([['row vector slice iterator']] if ok else [f'got {X.show(e)}']))
+            (ctx.ok if ok else ctx.fail)('R19.4', fnew, f'{it}::new wraps data.{ctor.rsplit("::", 1)[-1]}()', *([['row vector slice iterator']] if ok else [f'got {X.show(e) if e else None}']))
             fget = db.fn(f'{base}::get')
             e = norm(common.return_expr_single_path_allow(fget))
             ok = m(('call~', ('as_slice', 'as_mut_slice'), (('fld', ('p', 1), arr),)), e) is not None
-            (ctx.ok if ok else ctx.fail)('R19.4', fget, f'{it}::get projects the array', *([['.a.as_slice()']] if ok else [f'got {X.show(e)}']))
+            (ctx.ok if ok else ctx.fail)('R19.4', fget, f'{it}::get projects the array', *([['.a.as_slice()']] if ok else [f'got {X.show(e) if e else None}']))
             for meth, inner in (('Iterator>::next', 'Iterator::next'), ('DoubleEndedIterator>::next_back', 'DoubleEndedIterator::next_back'),
                                 ('ExactSizeIterator>::len', 'ExactSizeIterator::len')):
                 fs = [f for f in db.fns.values() if f.path.startswith(f'<{base}<') and f.path.endswith(meth) and f.kind == 'AssocFn']
@@ -382,7 +382,7 @@ def r194(db, ctx, F):
                     n += 1
                     ctx.ok('R19.4', f, f'{meth.split(">::")[1]} delegates to {inner} of the row iterator', ['map(Self::get)'] if not meth.endswith('len') else [])
                 else:
-                    ctx.fail('R19.4', f, 'iterator delegation', f'{meth} does not delegate to {inner}: {X.show(e)}')
+                    ctx.fail('R19.4', f, 'iterator delegation', f'{meth} does not delegate to {inner}: {X.show(e) if e else None}')
             # any further method of the iterator traits that the impl overrides (size_hint, nth, nth_back, count, ..) forwards to the method
             # of the same name of the wrapped row iterator: a forward method answered by a backward one (or vice versa) changes which rows
             # `rev().skip(k)`, `step_by` and `nth` visit
@@ -434,7 +434,7 @@ def r195(db, ctx, F):
             n += 1
             ctx.ok('R19.5', f, f'{nm}: {ctor}(data.{ptr}(), rows()*stride())', ['R19.1: rows are contiguous Row-sized blocks'])
         else:
-            ctx.fail('R19.5', f, 'flat view', f'not {ctor}(data.{ptr}(), rows()*stride()): {X.show(e)}')
+            ctx.fail('R19.5', f, 'flat view', f'not {ctor}(data.{ptr}(), rows()*stride()): {X.show(e) if e else None}')
     f = db.fn(f'{DM}::fill')
     calls = [f.callee_short(t) for _, t in f.calls()]
     if f'{DM}::ravel_mut' in calls and any(c and c.endswith('slice::fill') for c in calls):
